@@ -407,3 +407,7 @@ class TGen:
 
     def model_env(self):
         return {n: v for n, (t, v) in self.bindings.items()}
+
+    def redraw_env(self):
+        """Another activation for the same program: the same names and types, freshly drawn values."""
+        return {n: self.value(t) for n, (t, v) in self.bindings.items()}
